@@ -1031,6 +1031,31 @@ def jacobi(chk, F, body):
             cols_v = {u["idx"][1] for u in vsw}
             if cols_d != cols_v:
                 sort_bad.append("eigenvalues %s exchanged but eigenvector columns %s" % (sorted(cols_d), sorted(cols_v)))
+    # the exchange happens exactly when the minimum found (index m of the search loop) is not already at position k
+    import re as _re
+    for pp in paths:
+        loops_ = pp["loops"]
+        dsw_syms = {u["idx"][0] for u in pp["updates"] if u["arr"] == "D" and len(u["frames"]) == 1 and not equal(u["rhs"], A("D", *u["idx"]))}
+        for (key, d, b, f) in pp["ctx"].trace:
+            if key[0] != "cmp" or key[1] != "==":
+                continue
+            m_ = _re.match(r"^(\w+) == (\w+)$", d)
+            if not m_:
+                continue
+            x_, y_ = m_.group(1), m_.group(2)
+            if x_ not in loops_ or y_ not in loops_:
+                continue
+            inner, outer = (x_, y_) if y_ in loops_[x_][3] else ((y_, x_) if x_ in loops_[y_][3] else (None, None))
+            if inner is None or len(loops_[outer][3]) != 0:
+                continue      # not (search index, position) of a top-level selection pass
+            if b and {inner, outer} <= dsw_syms:
+                sort_bad.append("eigenvalues d[%s], d[%s] exchanged on the path where %s == %s" % (inner, outer, inner, outer))
+            if not b and not dsw_syms:
+                sort_bad.append("the minimum found at %s != %s is not moved to position %s" % (inner, outer, outer))
+            # the search runs over the not yet sorted tail
+            lo, hi = loops_[inner][0], loops_[inner][1]
+            if lo not in ("1 + " + outer, outer) or hi != n:
+                sort_bad.append("the minimum for position %s is searched over %s..%s" % (outer, lo, hi))
     chk.ob("loops|jacobi|sort", not sort_bad and n_sw > 0, "the final sort exchanges an eigenvector column whenever (and only when) it exchanges "
            "the corresponding eigenvalue", body_loc(F, body), found=sorted(set(sort_bad))[:3] or "%d paths with consistent exchanges" % n_sw)
     jacobi_control(chk, F, body, paths, P, Q)
@@ -1276,6 +1301,10 @@ def jacobi_control(chk, F, body, paths, P, Q):
                             g = px - ad
                             ga = all_atoms(g)
                             if ga and all(a[1] == "A" and a[2] == (P, Q) for a in ga):
+                                tested.add(who)
+                            elif ga and all(a[1] == "A" for a in ga):
+                                bad3.append("negligibility is tested on %s, the element dropped is a[%s,%s]" % (
+                                    sorted({"a[%s]" % ",".join(a[2]) for a in ga}), P, Q))
                                 tested.add(who)
         if not tested:
             unknown += 1
